@@ -486,7 +486,7 @@ Section LoopsWork.
     - rewrite (prefix_scan cmp os oe ns ne Htot x0 y0 Hx Hy) in H. cbn [bind] in H.
       peel H; inversion H; subst; rewrite (cn_tick wd cnt HC);
         apply Nat.add_le_mono_l;
-        apply (scan_le_stepcost n m c c_mono c_in G HboxG d k); try assumption; lia.
+        apply (scan_le_stepcost n m c c_mono c_in G HboxG d k); try assumption; unfold yof; lia.
     - cbn [bind] in H. peel H; inversion H; subst; lia.
     - cbn [bind] in H. peel H; inversion H; subst; lia.
   Qed.
@@ -546,7 +546,7 @@ Section LoopsWork.
     - rewrite (suffix_scan cmp os oe ns ne Htot x0 y0 Hx Hy) in H. cbn [bind] in H.
       peel H; inversion H; subst; rewrite (cn_tick wd cnt HC);
         apply Nat.add_le_mono_l;
-        apply (scan_le_stepcost n m c c_mono c_in Gr HboxGr d k); try assumption; lia.
+        apply (scan_le_stepcost n m c c_mono c_in Gr HboxGr d k); try assumption; unfold yof; lia.
     - cbn [bind] in H. peel H; inversion H; subst; lia.
     - cbn [bind] in H. peel H; inversion H; subst; lia.
   Qed.
@@ -633,3 +633,440 @@ Section LoopsWork.
                       Hvf Hvb1 Hpf Hpb1 Hbb Hdone1 H) as Hc2.
         lia.
   Qed.
+
+  (* ============================================================== Part 5 *)
+  Section RoundsWork.
+    Variable D : nat.
+    Hypothesis Hmd : max_d n m <= md.
+    Hypothesis HD : MinCost G n m D.
+    Hypothesis HD2 : 2 <= D.
+
+    Notation FSf := (FS n m c G).
+    Notation FSb := (FS n m c Gr).
+
+    (* the returned point splits an optimal path into halves of cost d1 and
+       D - d1, both at most ceil(D/2) *)
+    Definition GoodW (p : nat * nat) : Prop :=
+      exists x0 y0 d1, p = (x0 + os, y0 + ns) /\ x0 <= n /\ y0 <= m /\
+        MinCost G x0 y0 d1 /\ MinCost Gr (n - x0) (m - y0) (D - d1) /\
+        2 * d1 <= D + 1 /\ D <= 2 * d1 /\ 1 <= d1 /\ d1 < D.
+
+    Lemma fwd_res_goodW : forall d p, 2 * d <= D + 1 ->
+      FwdRes cmp os oe ns ne d p -> GoodW p /\ D + 1 = 2 * d.
+    Proof.
+      intros d p HdD [k [x0 [s [Hpar [Hy [-> [Hr [Hrun [HFR Hhit]]]]]]]]].
+      destruct Hhit as [Hodd [Habs [xf [ub [HFRf [HFRb Htest]]]]]].
+      rewrite (FR_unique G _ _ _ _ HFRf HFR) in Htest.
+      destruct (fwd_pass n m G HboxG D HD d k x0 s ub HdD ltac:(lia) Habs Hy Hr Hrun HFRb Htest)
+        as [Hx0 [Hy0 [Hf [Hb HDd]]]].
+      split; [|exact HDd].
+      exists x0, (Z.to_nat (Z.of_nat x0 - k)), d. split; [reflexivity|].
+      split; [exact Hx0|]. split; [exact Hy0|]. split; [exact Hf|].
+      replace (D - d) with (d - 1) by lia. split; [exact Hb|]. lia.
+    Qed.
+
+    Lemma bwd_res_goodW : forall d p, 2 * d <= D ->
+      BwdRes cmp os oe ns ne d p -> GoodW p /\ D = 2 * d.
+    Proof.
+      intros d p HdD [k [u1 [v1 [Hpar [Hdiag [Hu [Hv [-> [HFR Hhit]]]]]]]]].
+      destruct Hhit as [Hodd [Habs [ub [xf [HFRb [HFRf Htest]]]]]].
+      rewrite (FR_unique Gr _ _ _ _ HFRb HFR) in Htest.
+      destruct (bwd_pass n m G HboxG D HD d k u1 v1 xf HdD Hdiag Hu Hv HFR HFRf Htest)
+        as [Hf [Hb HDd]].
+      split; [|exact HDd].
+      exists (n - u1), (m - v1), d. split; [reflexivity|].
+      split; [lia|]. split; [lia|]. split; [exact Hf|].
+      replace (n - (n - u1)) with u1 by lia. replace (m - (m - v1)) with v1 by lia.
+      replace (D - d) with d by lia. split; [exact Hb|]. lia.
+    Qed.
+
+    Lemma round_loop_work : forall rounds d vf vb w r vf' vb' w',
+      rounds + d = max_d n m -> 2 * d <= D + 1 ->
+      VOk md vf -> VOk md vb -> PrevOk G d vf -> PrevOk Gr d vb ->
+      round_loop wd cmp os oe ns ne rounds d vf vb w = Ok (r, vf', vb', w') ->
+      match r with
+      | Some p => GoodW p /\
+          (* rr = the round in which the search returned *)
+          exists rr, 2 * rr <= D + 1 /\ D <= 2 * rr /\
+            cnt w' + FSf d + FSb d <= cnt w + FSf (S rr) + FSb (S rr)
+      | None => True
+      end /\
+      cnt w' + FSf d + FSb d <= cnt w + 2 * (D + 1) * B.
+    Proof.
+      induction rounds as [|rounds IH]; intros d vf vb w r vf' vb' w' Hsum HdD Hvf Hvb Hpf Hpb H.
+      - exfalso. pose proof (MinCost_le_sum G _ _ _ HD) as Hle.
+        unfold max_d in Hsum. cbn [Nat.add] in Hsum.
+        pose proof (Nat.div_mod (n + m + 1) 2 ltac:(lia)) as Hdm.
+        pose proof (Nat.mod_upper_bound (n + m + 1) 2 ltac:(lia)). lia.
+      - assert (Hd : S d <= md) by lia.
+        pose proof (FS_le n m c B c_mono c_bound G d) as HFf.
+        pose proof (FS_le n m c B c_mono c_bound Gr d) as HFb.
+        pose proof (FS_bound n m c B c_mono c_bound G d) as HFf1.
+        pose proof (FS_bound n m c B c_mono c_bound Gr d) as HFb1.
+        cbn [round_loop] in H. destruct (probe wd w) as [ex w0] eqn:Hprobe.
+        pose proof (cn_probe wd cnt HC _ _ _ Hprobe) as Hc0.
+        destruct ex.
+        { inversion H; subst. split; [exact Logic.I|]. nia. }
+        destruct (fwd_loop_spec wd cmp os oe ns ne md Htot d (S d) (Z.of_nat d) vf vb w0
+                    Hd ltac:(lia) ltac:(lia) Hvf Hvb Hpf Hpb (Done_start G d vf))
+          as [r1 [vf1 [w1 [Hfwd [Hvf1 [_ Hres1]]]]]].
+        { intros j [Hr _] Hlt. lia. }
+        pose proof (fwd_loop_cnt d (S d) (Z.of_nat d) vf vb w0 r1 vf1 w1
+                      Hd ltac:(lia) ltac:(lia) Hvf Hvb Hpf Hpb (Done_start G d vf) Hfwd) as Hc1.
+        fold (rc n m c G d) in Hc1.
+        rewrite Hfwd in H. cbn [bind] in H.
+        destruct r1 as [p|].
+        { inversion H; subst. destruct (fwd_res_goodW d p HdD Hres1) as [Hg HDd].
+          split; [split; [exact Hg|exists d; cbn [FS]; lia]|]. cbn [FS] in HFf1. nia. }
+        destruct Hres1 as [Hpf1 Hnof].
+        assert (HdD2 : 2 * d <= D).
+        { destruct (Nat.eq_dec (D + 1) (2 * d)) as [E|E]; [|lia]. exfalso.
+          destruct (fwd_complete n m G HboxG D HD d E) as [Hodd [k [xf [ub [Hpar [Habs [H1 [H2 H3]]]]]]]].
+          apply (Hnof k Hpar). split; [exact Hodd|]. split; [exact Habs|].
+          exists xf, ub. auto. }
+        assert (Hbb : forall j, BwdBox cmp os oe ns ne d j).
+        { intros j Hodd Habs u v Hk Hr.
+          apply (bwd_in_box n m G HboxG D HD d j u v HdD2 Habs Hk Hr). }
+        destruct (bwd_loop_spec wd cmp os oe ns ne md Htot d (S d) (Z.of_nat d) vf1 vb w1
+                    Hd ltac:(lia) ltac:(lia) Hvf1 Hvb Hpf1 Hpb Hbb (Done_start Gr d vb))
+          as [r2 [vb1 [w2 [Hbwd [Hvb1 [_ Hres2]]]]]].
+        { intros j [Hr _] Hlt. lia. }
+        pose proof (bwd_loop_cnt d (S d) (Z.of_nat d) vf1 vb w1 r2 vb1 w2
+                      Hd ltac:(lia) ltac:(lia) Hvf1 Hvb Hpf1 Hpb Hbb (Done_start Gr d vb) Hbwd) as Hc2.
+        fold (rc n m c Gr d) in Hc2.
+        rewrite Hbwd in H. cbn [bind] in H.
+        destruct r2 as [p|].
+        { inversion H; subst. destruct (bwd_res_goodW d p HdD2 Hres2) as [Hg HDd].
+          split; [split; [exact Hg|exists d; cbn [FS]; lia]|]. cbn [FS] in HFf1, HFb1. nia. }
+        destruct Hres2 as [Hpb1 Hnob].
+        assert (HdD3 : 2 * S d <= D + 1).
+        { destruct (Nat.eq_dec D (2 * d)) as [E|E]; [|lia]. exfalso.
+          destruct (bwd_complete n m G HboxG D HD d E) as [Hodd [k [ub [xf [Hpar [Habs [H1 [H2 H3]]]]]]]].
+          apply (Hnob k Hpar). split; [exact Hodd|]. split; [exact Habs|].
+          exists ub, xf. auto. }
+        destruct (IH (S d) vf1 vb1 w2 r vf' vb' w' ltac:(lia) HdD3 Hvf1 Hvb1 Hpf1 Hpb1 H)
+          as [Hg Hc3].
+        split; [|cbn [FS] in Hc3; lia].
+        destruct r as [p|]; [|exact Logic.I].
+        destruct Hg as [Hg [rr [Hr1 [Hr2 Hr3]]]]. split; [exact Hg|].
+        exists rr. split; [exact Hr1|]. split; [exact Hr2|]. cbn [FS] in Hr3 |- *. lia.
+    Qed.
+  End RoundsWork.
+End LoopsWork.
+
+(* ------------------------------------------------ one middle-snake search *)
+Section SnakeWork.
+  Context {W : Type}.
+  Variable wd : world W.
+  Variable cnt : W -> nat.
+  Hypothesis HC : CountResp wd cnt.
+  Variable cmp : cmpf.
+
+  (* what the recursion needs from the search: its cost and the halving *)
+  Definition SplitOk (os oe ns ne D : nat) (r : option (nat * nat)) : Prop :=
+    match r with
+    | Some (x, y) =>
+        os <= x <= oe /\ ns <= y <= ne /\
+        exists D1 D2, BoxCost cmp os x ns y D1 /\ BoxCost cmp x oe y ne D2 /\
+          D = D1 + D2 /\ 2 * D1 <= D + 1 /\ 2 * D2 <= D + 1
+    | None => True
+    end.
+
+  Lemma stripped_D2 : forall os oe ns ne D,
+    Stripped cmp os oe ns ne -> BoxCost cmp os oe ns ne D -> 2 <= D.
+  Proof.
+    intros os oe ns ne D [Ho [Hn [Hfirst Hlast]]] HD.
+    apply (stripped_cost (oe - os) (ne - ns) (dg_of cmp os oe ns ne) D); try lia; [| |exact HD].
+    - unfold dg_of. destruct (Nat.ltb_spec 0 (oe - os)); [|lia].
+      destruct (Nat.ltb_spec 0 (ne - ns)); [|lia]. cbn [andb].
+      rewrite !Nat.add_0_r. rewrite Hfirst. reflexivity.
+    - unfold dg_of. destruct (Nat.ltb_spec (oe - os - 1) (oe - os)); [|lia].
+      destruct (Nat.ltb_spec (ne - ns - 1) (ne - ns)); [|lia]. cbn [andb].
+      replace (os + (oe - os - 1)) with (oe - 1) by lia.
+      replace (ns + (ne - ns - 1)) with (ne - 1) by lia. rewrite Hlast. reflexivity.
+  Qed.
+
+  Theorem snake_work : forall os oe ns ne md vf vb w D r vf' vb' w',
+    Stripped cmp os oe ns ne -> CmpTotal cmp os oe ns ne ->
+    max_d (oe - os) (ne - ns) <= md -> VOk md vf -> VOk md vb ->
+    BoxCost cmp os oe ns ne D ->
+    find_middle_snake wd cmp os oe ns ne vf vb w = Ok (r, vf', vb', w') ->
+    cnt w' <= cnt w + 2 * (D + 1) * Nat.min (oe - os) (ne - ns) /\
+    SplitOk os oe ns ne D r /\
+    (r <> None -> exists rr, 2 * rr <= D + 1 /\ D <= 2 * rr /\
+       cnt w' <= cnt w + 2 * (2 * rr + 1) * Nat.min (oe - os) (ne - ns)).
+  Proof.
+    intros os oe ns ne md vf vb w D r vf' vb' w' Hstr Htot Hmd Hvf Hvb HD H.
+    pose proof (stripped_D2 os oe ns ne D Hstr HD) as HD2.
+    destruct Hstr as [Ho [Hn _]].
+    set (G := dg_of cmp os oe ns ne).
+    assert (Hmd2 : 2 <= max_d (oe - os) (ne - ns)).
+    { unfold max_d.
+      pose proof (Nat.div_mod (oe - os + (ne - ns) + 1) 2 ltac:(lia)) as Hdm.
+      pose proof (Nat.mod_upper_bound (oe - os + (ne - ns) + 1) 2 ltac:(lia)). lia. }
+    assert (H1 : InR md 1%Z) by (unfold InR; lia).
+    destruct (v_set_ok md vf 1%Z 0 Hvf H1) as [vf0 [Hsf [Hvf0 [Hgf _]]]].
+    destruct (v_set_ok md vb 1%Z 0 Hvb H1) as [vb0 [Hsb [Hvb0 [Hgb _]]]].
+    unfold find_middle_snake in H. rewrite Hsf in H. cbn [bind] in H.
+    rewrite Hsb in H. cbn [bind] in H.
+    destruct Hvf0 as [Hl0 Ho0]. destruct Hvb0 as [Hl1 Ho1]. rewrite Hl0, Hl1 in H.
+    destruct (Nat.ltb_spec (2 * md) (max_d (oe - os) (ne - ns))) as [Hc|_]; [lia|].
+    cbn [orb] in H.
+    assert (Hvf0 : VOk md vf0) by (split; assumption).
+    assert (Hvb0 : VOk md vb0) by (split; assumption).
+    unfold BoxCost in HD.
+    destruct (round_loop_work wd cnt HC cmp os oe ns ne md Htot
+                (clamp_x (oe - os)) (oe - os)
+                (clamp_x_mono (oe - os)) (clamp_x_bound (oe - os))
+                (clamp_x_in (oe - os) (ne - ns)) D Hmd HD HD2
+                (max_d (oe - os) (ne - ns)) 0 vf0 vb0 w r vf' vb' w'
+                ltac:(lia) ltac:(lia) Hvf0 Hvb0 Hgf Hgb H) as [Hg Hcx].
+    destruct (round_loop_work wd cnt HC cmp os oe ns ne md Htot
+                (clamp_y (ne - ns)) (ne - ns)
+                (clamp_y_mono (ne - ns)) (clamp_y_bound (ne - ns))
+                (clamp_y_in (oe - os) (ne - ns)) D Hmd HD HD2
+                (max_d (oe - os) (ne - ns)) 0 vf0 vb0 w r vf' vb' w'
+                ltac:(lia) ltac:(lia) Hvf0 Hvb0 Hgf Hgb H) as [Hg' Hcy].
+    cbn [FS] in Hcx, Hcy. split.
+    { destruct (Nat.min_spec (oe - os) (ne - ns)) as [[_ ->]|[_ ->]]; lia. }
+    destruct r as [[x y]|]; [|split; [exact Logic.I|intros Hc; congruence]].
+    destruct Hg as [Hg [rx [Hrx1 [Hrx2 Hrx3]]]]. destruct Hg' as [_ [ry [Hry1 [Hry2 Hry3]]]].
+    assert (ry = rx) by lia. subst ry.
+    split.
+    2:{ intros _. exists rx. split; [exact Hrx1|]. split; [exact Hrx2|].
+        pose proof (FS_bound (oe - os) (ne - ns) (clamp_x (oe - os)) (oe - os)
+                      (clamp_x_mono (oe - os)) (clamp_x_bound (oe - os)) G rx) as B1.
+        pose proof (FS_bound (oe - os) (ne - ns) (clamp_x (oe - os)) (oe - os)
+                      (clamp_x_mono (oe - os)) (clamp_x_bound (oe - os))
+                      (dg_rev (oe - os) (ne - ns) G) rx) as B2.
+        pose proof (FS_bound (oe - os) (ne - ns) (clamp_y (ne - ns)) (ne - ns)
+                      (clamp_y_mono (ne - ns)) (clamp_y_bound (ne - ns)) G rx) as B3.
+        pose proof (FS_bound (oe - os) (ne - ns) (clamp_y (ne - ns)) (ne - ns)
+                      (clamp_y_mono (ne - ns)) (clamp_y_bound (ne - ns))
+                      (dg_rev (oe - os) (ne - ns) G) rx) as B4.
+        cbn [FS] in Hrx3, Hry3, B1, B2, B3, B4. fold G in Hrx3, Hry3.
+        destruct (Nat.min_spec (oe - os) (ne - ns)) as [[_ ->]|[_ ->]]; lia. }
+    destruct Hg as [x0 [y0 [d1 [Hp [Hx0 [Hy0 [Hf [Hb [Hd1a [Hd1b [Hd1 Hd1D]]]]]]]]]]].
+    injection Hp as -> ->. cbn [SplitOk].
+    split; [lia|]. split; [lia|].
+    exists d1, (D - d1).
+    split.
+    { apply (left_box cmp os oe ns ne); [lia|lia|].
+      replace (x0 + os - os) with x0 by lia. replace (y0 + ns - ns) with y0 by lia. exact Hf. }
+    split.
+    { apply (right_box cmp os oe ns ne); [lia|lia|].
+      replace (x0 + os - os) with x0 by lia. replace (y0 + ns - ns) with y0 by lia. exact Hb. }
+    lia.
+  Qed.
+End SnakeWork.
+
+(* item 4: a search that returns does so in round rr = ceil(D/2) and has then
+   made at most (2 rr + 1) * min n m comparisons in each direction *)
+Corollary snake_round_cost {W} (wd : world W) cnt cmp os oe ns ne md vf vb w D p vf' vb' w' :
+  CountResp wd cnt ->
+  Stripped cmp os oe ns ne -> CmpTotal cmp os oe ns ne ->
+  max_d (oe - os) (ne - ns) <= md -> VOk md vf -> VOk md vb ->
+  BoxCost cmp os oe ns ne D ->
+  find_middle_snake wd cmp os oe ns ne vf vb w = Ok (Some p, vf', vb', w') ->
+  exists rr, 2 * rr <= D + 1 /\ D <= 2 * rr /\
+    cnt w' <= cnt w + 2 * (2 * rr + 1) * Nat.min (oe - os) (ne - ns).
+Proof.
+  intros HC Hstr Htot Hmd Hvf Hvb HD H.
+  destruct (snake_work wd cnt HC cmp os oe ns ne md vf vb w D _ _ _ _ Hstr Htot Hmd Hvf Hvb HD H)
+    as [_ [_ Hr]].
+  apply Hr. discriminate.
+Qed.
+
+(* item 5: in terms of the optimal cost D of the box, deadline or not *)
+Corollary snake_cost_D {W} (wd : world W) cnt cmp os oe ns ne md vf vb w D r vf' vb' w' :
+  CountResp wd cnt ->
+  Stripped cmp os oe ns ne -> CmpTotal cmp os oe ns ne ->
+  max_d (oe - os) (ne - ns) <= md -> VOk md vf -> VOk md vb ->
+  BoxCost cmp os oe ns ne D ->
+  find_middle_snake wd cmp os oe ns ne vf vb w = Ok (r, vf', vb', w') ->
+  cnt w' <= cnt w + 2 * (D + 1) * Nat.min (oe - os) (ne - ns) /\
+  cnt w' <= cnt w + ((oe - os) + (ne - ns) + 1) * (D + 1).
+Proof.
+  intros HC Hstr Htot Hmd Hvf Hvb HD H.
+  destruct (snake_work wd cnt HC cmp os oe ns ne md vf vb w D _ _ _ _ Hstr Htot Hmd Hvf Hvb HD H)
+    as [Hc _].
+  split; [exact Hc|].
+  assert (Hm : 2 * Nat.min (oe - os) (ne - ns) <= (oe - os) + (ne - ns)) by lia.
+  nia.
+Qed.
+
+(* ================================================================ Part 6 *)
+Lemma work_arith : forall s1 s2 D1 D2 mn,
+  2 <= s1 + s2 -> 2 <= D1 + D2 ->
+  2 * D1 <= D1 + D2 + 1 -> 2 * D2 <= D1 + D2 + 1 -> 2 * mn <= s1 + s2 ->
+  4 + 2 * (D1 + D2 + 1) * mn + 6 * s1 * D1 + 6 * s2 * D2 <= 6 * (s1 + s2) * (D1 + D2).
+Proof.
+  intros s1 s2 D1 D2 mn Hs HD H1 H2 Hmn.
+  assert (E : 6 * (s1 + s2) * (D1 + D2) =
+              6 * s1 * D1 + 6 * s2 * D2 + 6 * (s1 * D2 + s2 * D1)) by nia.
+  assert (Hm : 2 * (D1 + D2 + 1) * mn <= (D1 + D2 + 1) * (s1 + s2)) by nia.
+  destruct (Nat.eq_dec (D1 + D2) 2) as [E2|N2].
+  - assert (D1 = 1) by lia. assert (D2 = 1) by lia. subst D1 D2. nia.
+  - assert (H3 : D1 + D2 <= 2 * D1 + 1) by lia.
+    assert (H4 : D1 + D2 <= 2 * D2 + 1) by lia.
+    assert (H5 : (s1 + s2) * (D1 + D2) <= 2 * (s1 * D2 + s2 * D1) + (s1 + s2)) by nia.
+    assert (H6 : 3 * (s1 + s2) <= (s1 + s2) * (D1 + D2)) by nia.
+    nia.
+Qed.
+
+Section ConquerWork.
+  Context {W : Type}.
+  Variable wd : world W.
+  Variable cnt : W -> nat.
+  Hypothesis HC : CountResp wd cnt.
+  Variable cmp : cmpf.
+  Hypothesis HN : NoDeadline wd.
+  Variable md : nat.
+
+  Let HS : SnakeSpec wd cmp := snake_spec W wd cmp.
+
+  Definition WorkAt (f : nat) : Prop :=
+    forall os oe ns ne vf vb w vf' vb' w' D,
+      os <= oe -> ns <= ne -> CmpTotal cmp os oe ns ne ->
+      VOk md vf -> VOk md vb -> max_d (oe - os) (ne - ns) <= md ->
+      BoxCost cmp os oe ns ne D ->
+      conquer wd cmp f os oe ns ne vf vb w = Ok (vf', vb', w') ->
+      cnt w' <= cnt w + 6 * ((oe - os) + (ne - ns)) * D + ((oe - os) + (ne - ns)) + 2.
+
+  Lemma mid_work f : WorkAt f ->
+    forall os oe ns ne vf vb w vf' vb' w' D,
+      os <= oe -> ns <= ne -> CmpTotal cmp os oe ns ne ->
+      (os < oe -> ns < ne -> Stripped cmp os oe ns ne) ->
+      VOk md vf -> VOk md vb -> max_d (oe - os) (ne - ns) <= md ->
+      BoxCost cmp os oe ns ne D ->
+      MidRun wd cmp f os oe ns ne vf vb w vf' vb' w' ->
+      cnt w' <= cnt w + 6 * ((oe - os) + (ne - ns)) * D + ((oe - os) + (ne - ns)).
+  Proof.
+    intros IH os oe ns ne vf vb w vf' vb' w' D Hoe Hne Htot Hstr Hvf Hvb Hmd HD HM.
+    destruct HM as [Ho Hn|w1 Ho Hn He|w1 Ho Hn He
+                   |x y vf1 vb1 w1 vf2 vb2 w2 vf3 vb3 w3 Ho Hn Ef E1 E2
+                   |vf1 vb1 w1 w2 w3 Ho Hn Ef E1 E2].
+    - rewrite <- Nat.add_assoc. apply Nat.le_add_r.
+    - rewrite (cn_emit wd cnt HC _ _ _ He). rewrite <- Nat.add_assoc. apply Nat.le_add_r.
+    - rewrite (cn_emit wd cnt HC _ _ _ He). rewrite <- Nat.add_assoc. apply Nat.le_add_r.
+    - destruct (HS os oe ns ne md vf vb w (Hstr Ho Hn) Htot Hmd Hvf Hvb)
+        as (r & vf1' & vb1' & w1' & Hf & Hvf1 & Hvb1 & _ & _).
+      rewrite Ef in Hf. inversion Hf; subst r vf1' vb1' w1'. clear Hf.
+      destruct (snake_work wd cnt HC cmp os oe ns ne md vf vb w D _ _ _ _
+                  (Hstr Ho Hn) Htot Hmd Hvf Hvb HD Ef) as [Hcs [Hsp _]].
+      pose proof (stripped_D2 cmp os oe ns ne D (Hstr Ho Hn) HD) as HD2.
+      cbn [SplitOk] in Hsp.
+      destruct Hsp as (Hx & Hy & D1 & D2 & HD1 & HD2' & HDsum & Hh1 & Hh2).
+      assert (Ht1 : CmpTotal cmp os x ns y) by (eapply CmpTotal_sub; [exact Htot|lia..]).
+      assert (Ht2 : CmpTotal cmp x oe y ne) by (eapply CmpTotal_sub; [exact Htot|lia..]).
+      assert (Hm1 : max_d (x - os) (y - ns) <= md)
+        by (eapply Nat.le_trans; [apply max_d_mono|exact Hmd]; lia).
+      assert (Hm2 : max_d (oe - x) (ne - y) <= md)
+        by (eapply Nat.le_trans; [apply max_d_mono|exact Hmd]; lia).
+      destruct (conquer_VOk wd cmp md f os x ns y vf1 vb1 w1 vf2 vb2 w2 HS) as [Hvf2 Hvb2];
+        try assumption; try lia.
+      pose proof (IH os x ns y vf1 vb1 w1 vf2 vb2 w2 D1 ltac:(lia) ltac:(lia)
+                    Ht1 Hvf1 Hvb1 Hm1 HD1 E1) as Hc1.
+      pose proof (IH x oe y ne vf2 vb2 w2 vf3 vb3 w3 D2 ltac:(lia) ltac:(lia)
+                    Ht2 Hvf2 Hvb2 Hm2 HD2' E2) as Hc2.
+      set (s1 := (x - os) + (y - ns)) in *. set (s2 := (oe - x) + (ne - y)) in *.
+      assert (Es : (oe - os) + (ne - ns) = s1 + s2) by (unfold s1, s2; lia).
+      rewrite Es. subst D.
+      pose proof (work_arith s1 s2 D1 D2 (Nat.min (oe - os) (ne - ns))
+                    ltac:(lia) ltac:(lia) ltac:(lia) ltac:(lia) ltac:(lia)) as Ha.
+      lia.
+    - exfalso.
+      destruct (HS os oe ns ne md vf vb w (Hstr Ho Hn) Htot Hmd Hvf Hvb)
+        as (r & vf1' & vb1' & w1' & Hf & Hvf1 & Hvb1 & Hpt & Hr).
+      rewrite Ef in Hf. inversion Hf; subst r vf1' vb1' w1'. clear Hf.
+      cbn beta iota in Hr. destruct Hr as (wa & wb & _ & Hp).
+      pose proof (HN wa) as Hfalse. rewrite Hp in Hfalse. cbn [fst] in Hfalse. discriminate.
+  Qed.
+
+  Theorem conquer_work_at f : WorkAt f.
+  Proof.
+    induction f as [|f IH];
+      intros os oe ns ne vf vb w vf' vb' w' D Hoe Hne Htot Hvf Hvb Hmd HD H.
+    - cbn [conquer] in H. discriminate.
+    - apply conquer_S_iff in H.
+      destruct H as [p w1 s vf1 vb1 w3 w4 Hp Hw1 Hs Hso Hsn Hm Hw4].
+      destruct (strip_facts cmp os oe ns ne p s Hoe Hne Hp Hs)
+        as (Hp1 & Hp2 & Hseg1 & Hs1 & Hs2 & Hseg2 & Hstr).
+      assert (HD' : BoxCost cmp (os + p) (oe - s) (ns + p) (ne - s) D).
+      { apply BoxCost_strip_eq; try assumption; lia. }
+      pose proof (mid_work f IH (os + p) (oe - s) (ns + p) (ne - s) vf vb _ vf1 vb1 w3 D
+                    ltac:(lia) ltac:(lia)
+                    ltac:(eapply CmpTotal_sub; [exact Htot|lia..]) Hstr Hvf Hvb
+                    ltac:(eapply Nat.le_trans; [apply max_d_mono|exact Hmd]; lia) HD' Hm) as Hmid.
+      rewrite (cnt_emit_eq_opt wd cnt HC _ _ _ _ _ Hw4).
+      rewrite (cn_tick wd cnt HC) in Hmid.
+      rewrite (cnt_emit_eq_opt wd cnt HC _ _ _ _ _ Hw1) in Hmid.
+      rewrite (cn_tick wd cnt HC) in Hmid.
+      pose proof (scan_cmps_le_S os oe ns ne p) as Hc1.
+      pose proof (scan_cmps_le_S (os + p) oe (ns + p) ne s) as Hc2.
+      set (s' := (oe - s - (os + p)) + (ne - s - (ns + p))) in *.
+      set (S0 := (oe - os) + (ne - ns)) in *.
+      assert (ES : S0 = s' + 2 * p + 2 * s) by (unfold S0, s'; lia).
+      assert (Hmul : s' * D <= S0 * D) by (apply Nat.mul_le_mono_r; lia).
+      lia.
+  Qed.
+End ConquerWork.
+
+(* the recursion, for any world whose deadline never fires *)
+Theorem conquer_work {W} (wd : world W) cnt cmp md fuel os oe ns ne vf vb w vf' vb' w' D :
+  CountResp wd cnt -> NoDeadline wd ->
+  os <= oe -> ns <= ne -> CmpTotal cmp os oe ns ne ->
+  VOk md vf -> VOk md vb -> max_d (oe - os) (ne - ns) <= md ->
+  BoxCost cmp os oe ns ne D ->
+  conquer wd cmp fuel os oe ns ne vf vb w = Ok (vf', vb', w') ->
+  cnt w' <= cnt w + 6 * ((oe - os) + (ne - ns)) * D + ((oe - os) + (ne - ns)) + 2.
+Proof. intros HC HN. apply (conquer_work_at wd cnt HC cmp HN md fuel). Qed.
+
+Theorem myers_work {W} (wd : world W) cnt cmp os oe ns ne w w' D :
+  CountResp wd cnt -> NoDeadline wd ->
+  os <= oe -> ns <= ne -> CmpTotal cmp os oe ns ne ->
+  BoxCost cmp os oe ns ne D ->
+  myers_diff wd cmp os oe ns ne w = Ok w' ->
+  cnt w' <= cnt w + 6 * ((oe - os) + (ne - ns)) * D + ((oe - os) + (ne - ns)) + 2.
+Proof.
+  intros HC HN Hoe Hne Htot HD H.
+  apply myers_diff_inv in H. destruct H as (vf' & vb' & w'' & Hc & He).
+  rewrite (cn_emit wd cnt HC _ _ _ He).
+  exact (conquer_work wd cnt cmp _ _ os oe ns ne _ _ w vf' vb' w'' D HC HN Hoe Hne Htot
+           (VOk_v_new _) (VOk_v_new _) (le_n _) HD Hc).
+Qed.
+
+(* C19 in the shape "a fixed multiple of (N+M+1)*(D+1)" *)
+Theorem myers_work_bound cmp os oe ns ne w0 w1 D :
+  os <= oe -> ns <= ne -> CmpTotal cmp os oe ns ne ->
+  BoxCost cmp os oe ns ne D ->
+  myers_diff (plain_world None) cmp os oe ns ne w0 = Ok w1 ->
+  cmps (p_ctr w1) <= cmps (p_ctr w0) + 6 * ((oe - os) + (ne - ns) + 1) * (D + 1).
+Proof.
+  intros Hoe Hne Htot HD H.
+  pose proof (myers_work (plain_world None) cmps_of cmp os oe ns ne w0 w1 D
+                (CountResp_plain None) NoDeadline_plain Hoe Hne Htot HD H) as Hw.
+  unfold cmps_of in Hw. nia.
+Qed.
+
+(* the same with the optimum expressed by the LCS length: D = N + M - 2 L *)
+Corollary myers_work_bound_lcs cmp os oe ns ne w0 w1 L :
+  os <= oe -> ns <= ne -> CmpTotal cmp os oe ns ne ->
+  IsLcsLen cmp os oe ns ne L ->
+  myers_diff (plain_world None) cmp os oe ns ne w0 = Ok w1 ->
+  cmps (p_ctr w1) <=
+  cmps (p_ctr w0) + 6 * ((oe - os) + (ne - ns) + 1) * ((oe - os) + (ne - ns) - 2 * L + 1).
+Proof.
+  intros Hoe Hne Htot HL H.
+  destruct (BoxCost_exists cmp os oe ns ne) as [D HD].
+  pose proof (MinCost_LCS cmp os oe ns ne D L HD HL) as E.
+  replace ((oe - os) + (ne - ns) - 2 * L) with D by lia.
+  exact (myers_work_bound cmp os oe ns ne w0 w1 D Hoe Hne Htot HD H).
+Qed.
+
+Print Assumptions snake_work.
+Print Assumptions snake_round_cost.
+Print Assumptions snake_cost_D.
+Print Assumptions myers_work_bound_lcs.
+Print Assumptions myers_work.
+Print Assumptions myers_work_bound.
